@@ -617,6 +617,32 @@ def _known_bool(t):
                 return t
         if len(vals) == 1:
             return ("const", "bool", vals.pop())
+    # a length comparison (`let [first, ..] = v.as_slice() else ..` tests `len >= 1`) of a vector that is empty on
+    # every reaching path, or has just been pushed to on every reaching path
+    co = cmp_operands(t) if t[0] in ("bin", "call") else None
+    if co is not None:
+        for xi, ki, flip in ((1, 2, False), (2, 1, True)):
+            x, k = len_of(co[xi]), INT_VALUE[0](co[ki])
+            if x is None or k is None:
+                continue
+            alts = x[1] if x[0] == "phi" else (x,)
+            lo = []
+            for a in alts:
+                if a[0] == "call" and a[1] == "std::vec::Vec::new" and not a[2]:
+                    lo.append((0, 0))
+                elif a[0] == "call" and a[1] == "vec!":
+                    lo.append((len(a[2]), len(a[2])))
+                elif a[0] == "mut" and a[2] == "std::vec::Vec::push":
+                    lo.append((1, None))
+                else:
+                    return t
+            res = set()
+            for mn, mx in lo:
+                for v in ([mn] if mx == mn else [mn, mn + 1, 1 << 20]):
+                    a_, b_ = (k, v) if flip else (v, k)
+                    res.add(bool(_CMP[co[0]](a_, b_)))
+            if len(res) == 1:
+                return ("const", "bool", res.pop())
     return t
 
 
